@@ -38,4 +38,4 @@ def getall_as_tensor(dataset, item="class"):
         return torch.from_numpy(items)
     elif not torch.is_tensor(items):
         return torch.tensor(items)
-    return classes
+    return items
